@@ -1,6 +1,6 @@
 """C02 - The same query over the same data gives the same answer on every dialect."""
 import json, re
-import vlib, c01_lib as L, c01_harness as H
+import vlib, c01_lib as L, c01_harness as H, c01_aggr as A
 from vlib import Corr, Search, Failure
 
 ID = 'C02'
@@ -283,6 +283,66 @@ def slice_agreement(ctx, deep):
     return evals, failures, seen
 
 
+# ---- aggregates as whole-query results (Model/C01Aggr.v): the decoded value of the aggregate under the PostgreSQL / MySQL reading of the
+#      AST the real translator produced for that provider vs the SQLite reading of the SQLite AST, over a fixed table
+
+def aggr_table(rows):
+    return [dict(r, id=i + 1) for i, r in enumerate(rows)]
+
+
+def aggr_case(prov, g, filt, params, table):
+    qa, conds, _, _ = A.translate(prov, g, filt, params)
+    qb, condsb, _, _ = A.translate('sqlite', g, filt, params)
+    tab = '[%s]' % '; '.join('mkenv %s PARAMS' % L.coq_rowfn(r) for r in table)
+    return '(let PARAMS := %s in let TAB := %s in aval_eqb (deca_g %s (sql_aggr %s %s %s TAB)) (deca_g %s (sql_aggr DSqlite %s %s TAB)))' % (
+        L._coq_fn(list(params.items())), tab, A.agg_coq(g), L.DN[prov], qa, conds, A.agg_coq(g), qb, condsb)
+
+
+def aggr_key(prov, g, filt, params, table):
+    if prov == 'postgres' and g[0] == 'agg' and g[1] in ('sum', 'avg') and L.ty_of(g[3]) == 'bool': return 'postgres-sum-avg-of-boolean'
+    for e in (filt, g[3] if g[0] == 'agg' else None):
+        if e is None: continue
+        for row in table:
+            k = dialect_key(e, row, params, prov)
+            if not k.startswith('unlisted'): return k
+    return 'unlisted:%s:aggregate:%s' % (prov, g[1] if g[0] == 'agg' else g[0])
+
+
+def aggr_failure(prov, g, filt, params, table):
+    what = '%s (documented semantics, not executed) and SQLite disagree on %s with %s over %d rows' % (
+        prov, A.qsrc(g, filt), {('x%d' % i): v for i, v in sorted(params.items())}, len(table))
+    return Failure(aggr_key(prov, g, filt, params, table), what, {'aggr': {'provider': prov, 'agg': A.to_json(g), 'filt': L.to_json(filt) if filt is not None else None,
+                                                                            'params': {str(i): v for i, v in params.items()}, 'rows': table}})
+
+
+def aggr_agreement(ctx, deep):
+    table = aggr_table(search_rows(ctx, 8))
+    queries = A.gen_queries(ctx, 40 if not deep else 400)
+    exprs, meta = [], []
+    for g, filt, params in queries:
+        if any(e is not None and zero_div(e, row, params) for e in (filt, g[3] if g[0] == 'agg' else None) for row in table): continue
+        for prov in ('postgres', 'mysql'):
+            try: exprs.append(aggr_case(prov, g, filt, params, table)); meta.append((prov, g, filt, params))
+            except Exception: continue
+    bad = H.run_bools(ctx, exprs, name='aggr', header=A.AGGR_HEADER, jobs=4)
+    failures, seen = [], {}
+    for i in bad:
+        prov, g, filt, params = meta[i]
+        f = aggr_failure(prov, g, filt, params, table)
+        seen[f.key] = seen.get(f.key, 0) + 1
+        if seen[f.key] <= 1: failures.append(f)
+    return len(exprs), failures, seen
+
+
+def replay_aggr(ctx, d):
+    g = A.from_json(d['agg']); filt = L.from_json(d['filt']) if d['filt'] is not None else None
+    params = {int(k): v for k, v in d['params'].items()}
+    try: case = aggr_case(d['provider'], g, filt, params, d['rows'])
+    except Exception: return None
+    if not H.run_bools(ctx, [case], name='replay_aggr', header=A.AGGR_HEADER): return None
+    return aggr_failure(d['provider'], g, filt, params, d['rows'])
+
+
 def replay_slice(d):
     import props.c25 as c25
     case, n, a, b, prov = d['case'], d['n'], d['a'], d['b'], d['provider']
@@ -331,7 +391,10 @@ def search(ctx, deep):
     s_evals, s_fail, s_seen = slice_agreement(ctx, deep)
     failures += s_fail
     dist['slice_agreement'] = {'evaluations': s_evals, 'disagreeing_by_key': s_seen}
-    return Search(evaluations=len(exprs) + s_evals, failures=failures, nontrivial=len(nontriv), distribution=dist, exhaustive=False,
+    a_evals, a_fail, a_seen = aggr_agreement(ctx, deep)
+    failures += a_fail
+    dist['aggregate_agreement'] = {'evaluations': a_evals, 'disagreeing_by_key': a_seen}
+    return Search(evaluations=len(exprs) + s_evals + a_evals, failures=failures, nontrivial=len(nontriv), distribution=dist, exhaustive=False,
                   samples=[{'case': exprs[len(exprs) // 2][:500]}] if exprs else [])
 
 
@@ -350,6 +413,7 @@ def _replay_parts(data):
 
 def replay(ctx, data):
     if 'slice' in data: return replay_slice(data['slice'])
+    if 'aggr' in data: return replay_aggr(ctx, data['aggr'])
     return replay_expr(ctx, data)
 
 
@@ -357,7 +421,7 @@ def replay_expr(ctx, data):
     """One stored input. The recorded findings are evaluated together in one coqc run (cached) to keep the check fast."""
     key = _payload_key(data)
     if key not in _replay_cache:
-        batch = [data] + [k['replay'] for k in vlib.known_for(ID) if k.get('replay') and 'slice' not in k['replay'] and _payload_key(k['replay']) != key]
+        batch = [data] + [k['replay'] for k in vlib.known_for(ID) if k.get('replay') and 'slice' not in k['replay'] and 'aggr' not in k['replay'] and _payload_key(k['replay']) != key]
         cases, owners = [], []
         for d in batch:
             try:
